@@ -217,4 +217,20 @@ CHECKS = {
         "level_text": "Seeded exploration of search/write histories; every cache hit is decided exactly against a mirror of storable results and the write log.",
         "level_note": "trusted base: the mirror of storable results, the write log, the f64 distance reference",
     },
+    "C11": {
+        "level": "exploration",
+        "design_ref": "DESIGN.md section 5/C11",
+        "engine": "E1 simlibc (histories with restarts)",
+        "technique": "deterministic simulation: seeded histories with overwrites, metadata merges/replacements, deletes, tombstone compaction, restarts and filtered batch deletes; filter selection judged against the harness's own implementation of the documented semantics over a reference map",
+        "rule": "seeded histories (4-26 steps quick, 4-50 thorough) over HnswBackend / TieredEngine (capacity {4,8,1000} => tombstone compaction, restarts => index rebuilt by recovery); metadata over keys {k,s} x values "
+                "{5, 05, +5, 5.0, 5e0, -0, 0, inf, -inf, NaN, ' 5', '', e-acute, 10, a, -3.5, 300-char}; merges that turn numeric values into strings and back. At seeded steps (and after metadata updates, deletes, restarts) a batch of filters is "
+                "evaluated: a rotating window of the exhaustive leaf catalogue (no filter, empty and/or/not, range without bound, every exact and every range operator x every value x every key incl. a missing key, each also under NOT; 486 filters) "
+                "plus seeded trees to depth 4. ids_for_metadata_filter(f) == {id in model | ref(f, metadata)}; metadata_filter::matches agrees with ref on every (filter, live metadata) pair; TieredEngine::batch_delete_by_metadata_filter(f) removes "
+                "exactly that set (canonical census before/after). evaluations = filters evaluated against the live engine. distinct_nontrivial = distinct (filter, selected id set) pairs whose selected set is neither empty nor everything.",
+        "assumptions": ["the filter semantics by themselves are a pure function; the claim is about the selection staying exact inside histories (index maintenance, compaction, recovery, filtered delete)", "start-up recount of the server is judged by C14"],
+        "expected_probes": ["filtered_batch_delete"],
+        "tiers": {"quick": {"runs_per_worker": 1000000, "budget_s": 30}, "thorough": {"runs_per_worker": 10000000, "budget_s": 600}},
+        "level_text": "Seeded exploration of histories x filter trees with an exhaustive leaf catalogue rotated through the runs; each selection judged exactly against an independent reference implementation.",
+        "level_note": "trusted base: the harness's reference matcher (Rust f64 parse for 'numeric'), the reference map",
+    },
 }
